@@ -21,6 +21,7 @@ code reads INTEGERs unsigned (`parse_uint(..) as i32`); `C19_pagedResults_req_ne
 Outside the well-formed domain the response parsers panic (documented caller-side behaviour of
 `RawControl::parse` / `Exop::parse`); those branches are covered by the `…_panics` theorems.
 -/
+import Ldap3V.Gen.Oids
 import Ldap3V.Lemmas.CodecsReq
 import Ldap3V.Lemmas.CodecsResp
 import Ldap3V.Lemmas.CodecsEnvelope
@@ -39,6 +40,19 @@ theorem C19_oids :
     oidRelaxRules = Codecs.Spec.rfcRelaxRules ∧ oidWhoAmI = Codecs.Spec.rfcWhoAmI ∧
     oidPassMod = Codecs.Spec.rfcPassMod ∧ oidTxnStart = Codecs.Spec.rfcTxnStart ∧
     oidTxnEnd = Codecs.Spec.rfcTxnEnd ∧ oidStartTLS = Codecs.Spec.rfcStartTLS := by decide
+
+/-- **tie by regeneration**: the OID constants the model uses are the `*_OID` constants of the Rust
+source, read from /repo/src/{controls_impl,exop_impl}/*.rs by translate/consts.py on every run -/
+theorem C19_oids_source :
+    Gen.rustOid "PAGED_RESULTS_OID" = some oidPagedResults ∧ Gen.rustOid "SYNC_REQUEST_OID" = some oidSyncRequest ∧
+    Gen.rustOid "SYNC_STATE_OID" = some oidSyncState ∧ Gen.rustOid "SYNC_DONE_OID" = some oidSyncDone ∧
+    Gen.rustOid "SYNC_INFO_OID" = some oidSyncInfo ∧ Gen.rustOid "PRE_READ_OID" = some oidPreRead ∧
+    Gen.rustOid "POST_READ_OID" = some oidPostRead ∧ Gen.rustOid "ASSERTION_OID" = some oidAssertion ∧
+    Gen.rustOid "MATCHED_VALUES_OID" = some oidMatchedValues ∧ Gen.rustOid "PROXY_AUTH_OID" = some oidProxyAuth ∧
+    Gen.rustOid "TXN_REQUEST_OID" = some oidTxnSpec ∧ Gen.rustOid "MANAGE_DSA_IT_OID" = some oidManageDsaIt ∧
+    Gen.rustOid "RELAX_RULES_OID" = some oidRelaxRules ∧ Gen.rustOid "WHOAMI_OID" = some oidWhoAmI ∧
+    Gen.rustOid "PASSMOD_OID" = some oidPassMod ∧ Gen.rustOid "TXN_START_OID" = some oidTxnStart ∧
+    Gen.rustOid "TXN_END_OID" = some oidTxnEnd ∧ Gen.rustOid "STARTTLS_OID" = some oidStartTLS := by decide
 
 theorem C19_known_table :
     knownType Codecs.Spec.rfcPagedResults = some .pagedResults ∧
